@@ -113,6 +113,15 @@ impl<E: FieldElement, H: ElementHasher<BaseField = E::BaseField>> VerifierChanne
             .parse(main_trace_width, aux_trace_width, constraint_frame_width)
             .map_err(|err| VerifierError::ProofDeserializationError(err.to_string()))?;
 
+        // --- check GKR proof --------------------------------------------------------------------
+        // a GKR proof is consumed only when the trace has a Lagrange kernel column; in all other
+        // cases it would not be bound to anything, and thus, a proof containing one is malformed
+        if gkr_proof.is_some() && !air.context().has_lagrange_kernel_aux_column() {
+            return Err(VerifierError::ProofDeserializationError(
+                "unexpected GKR proof because trace has no lagrange kernel column".to_string(),
+            ));
+        }
+
         Ok(VerifierChannel {
             // trace queries
             trace_roots,
